@@ -522,6 +522,33 @@ def set_d (minus : Nat) (s : St) (r : Nat) (d : Nat) : Option St :=
 
 def mpz_set_d (s : St) (r : Nat) (d : Nat) : Option St := set_d 0 s r d
 
+/-! ### mpq_inv — mpq/inv.c (an `mpq_t` is its two `mpz_t` fields: two variable ids; dest == src ↔ the same ids) -/
+
+/-- mpq_inv (dest, src), inv.c:26-69; dest = (dn, dd), src = (sn, sd); `none` = DIVIDE_BY_ZERO.  In place the two blocks are
+    exchanged (alloc and pointer fields swapped, inv.c:47-55); otherwise `_mpz_realloc` of both fields — after their sizes have
+    already been stored (inv.c:39-40) — and two copies. -/
+def mpq_inv (s : St) (dn dd sn sd : Nat) : Option St :=
+  let num_size := s.SIZ sn                                                    -- inv.c:28
+  let den_size := s.SIZ sd                                                    -- :29
+  if num_size == 0 then none                                                  -- :31-32
+  else
+    let neg := decide (num_size < 0)                                          -- :34
+    let num_size := if neg then -num_size else num_size                       -- :36
+    let den_size := if neg then -den_size else den_size                       -- :37
+    let s := s.setSize dd num_size                                            -- :39
+    let s := s.setSize dn den_size                                            -- :40
+    if dn == sn then                                                          -- :45 dest == src
+      let on := s.h dn
+      let od := s.h dd
+      some { s with h := upd (upd s.h dn ⟨on.size, on.gen + 1, od.buf⟩) dd ⟨od.size, od.gen + 1, on.buf⟩ }   -- :47-54
+    else
+      let den_size := den_size.natAbs                                         -- :58
+      let s := MPZ_REALLOC s dn den_size                                      -- :59-60
+      let s := MPZ_REALLOC s dd num_size.natAbs                               -- :62-63
+      let s := MPN_COPY s (s.PTR dn) (s.PTR sd) den_size                      -- :65
+      let s := MPN_COPY s (s.PTR dd) (s.PTR sn) num_size.natAbs               -- :66
+      some s
+
 /-! ### mpf: a destination of `PREC + 1` limbs that is never reallocated — mpf/urandomb.c
 
     An `mpf_t` owns a block of `_mp_prec + 1` limbs (mpf/init2.c) for its whole life; every function must keep its stores inside
